@@ -7,7 +7,8 @@ ASan+UBSan; every input sits in a heap block of exactly its size (strings:
 strlen+1, (buf,end) interfaces: no terminator), every output in a block of
 exactly the contract's size.  The driver checks the documented range of each
 result (json_find pointer in [buf,end], decoder lengths, return codes, optarg
-inside argv, ...) and answers BAD when it is left; it has a per-input
+inside argv, ...; a getopt parse after optreset must not depend on an earlier,
+abandoned and freed argv) and answers BAD when it is left; it has a per-input
 watchdog (SIGALRM) so a non-terminating input is attributed to its case.
 getaddrinfo is interposed so that no input reaches a resolver.
 
@@ -1072,6 +1073,10 @@ def run(ctx):
     if ctx.cov.get('getaddrinfo_calls', 0) and \
             ctx.cov.get('getaddrinfo_calls') == ctx.cov.get('getaddrinfo_refused_by_wrapper'):
         ctx.note_inconclusive('the getaddrinfo wrapper let nothing through')
+    if not ctx.cov.get('getopt_reset:abandoned_inside_packed_group', 0):
+        ctx.note_inconclusive('no getopt loop was abandoned inside a packed group')
+    if not ctx.cov.get('family:json_member_name_with_raw_NUL', 0):
+        ctx.note_inconclusive('no JSON member name with a raw NUL was executed')
     if not ctx.quick():
         # a deterministic sample of the generated corpus for the extra passes
         sample = []
@@ -1095,7 +1100,16 @@ def run(ctx):
         'humansize_parse and %d PARSENUM/PARSENUM_EX instantiations; bracketed / path / numeric-IPv4 address strings '
         '(getaddrinfo interposed, refuses non-numeric); serialised addresses: every length 0..40, every truncation, '
         'hostile namelen/family; key and passphrase files with lines around 1024/2048 bytes, NUL/CR/CRLF/no EOL; '
-        'hostile argv through two GETOPT_* tables. '
+        'hostile argv through two GETOPT_* tables; three-step getopt sequences (kind getopt_reset): a command line '
+        'with a packed group (lengths 2..200, argument-taking and unknown options inside, other arguments before/after) '
+        'whose GETOPT loop is left after k labels for every k, the argv strings and vector then freed, optreset = 1 and a '
+        'different argv parsed to the end (freed argv = use-after-free under ASan; the second parse must equal the same '
+        'parse after a completed one); counters getopt_reset:sequences / abandoned_inside_packed_group. '
+        'JSON member names holding raw 0x00 bytes (counter family:json_member_name_with_raw_NUL): name = key+NUL, '
+        'key+NUL+more, each proper prefix of the key+NUL, NUL inserted/replacing at each position, several NULs, for keys '
+        'of length 0, 1, 2..40 (also keys needing escapes), such members first / between / after other top-level members '
+        'and nested, every truncation, searched with the key, shorter, longer and absent keys; the key block is exactly '
+        'strlen+1 bytes. '
         'non-trivial = the input is not a valid document (json.loads / strict base-64 / generator flag) or the '
         'driver reported an error return path; distinct = 64-bit hash of (parser, arguments, input); '
         'evaluations = executions (the quick-size corpus runs in two builds, -O1 and -O0)' % NUM_INST)
